@@ -24,6 +24,7 @@ def sensitivity():
             continue
         text = doc[m.start():].strip()
         # cut at next heading-like blank-line-separated block that is not part of the list (keep at most 40 lines)
+        text = "".join(c if (c.isprintable() or c in "\n\t") else "\\x%02x" % ord(c) for c in text)
         lines = text.splitlines()[:45]
         out.append("**%s** (`checks/%s`)\n\n```\n%s\n```\n" % (pid, os.path.basename(fn), "\n".join(lines)))
     return "\n".join(out)
@@ -36,7 +37,7 @@ def seeded():
         if not os.path.exists(mp):
             continue
         m = json.load(open(mp)); v = m.get("verification", {})
-        tot += 1; det += 1 if v.get("detected") else 0
+        tot += 1; det += 1 if (v.get("detected") or v.get("detected_by_related_check")) else 0
         clause = ""
         for l in v.get("check_violation_lines", []):
             mm = re.search(r"clause=(\S+)", l)
@@ -44,7 +45,9 @@ def seeded():
         rows.append("| %s | %s | %s | %s | %s/%s | %s | %s | %s |" % (
             os.path.basename(d), m.get("property"), (m.get("summary") or "").replace("|", "\\|")[:260], (m.get("needs") or "").replace("|", "\\|")[:220],
             v.get("demo_clean_rc"), v.get("demo_patched_rc"), "pass" if v.get("suite_ok", True) else "FAIL",
-            v.get("check_tier"), ("yes: `%s`" % clause) if v.get("detected") else "**no**"))
+            v.get("check_tier"),
+            (("yes: `%s`" % clause) + ((" (seeds %s)" % ",".join(k for k, x in v.get("check_per_seed", {}).items() if x.get("rc") == 1)) if v.get("check_per_seed") else ""))
+            if v.get("detected") else (("by related check %s" % v["detected_by_related_check"]) if v.get("detected_by_related_check") else "**no**")))
     return "%d independently seeded changes kept (confirmed by us: demo passes clean / fails patched, suite green), %d detected by the quick tier of the property's check.\n\n" % (tot, det) + "\n".join(rows)
 
 def main():
